@@ -156,13 +156,15 @@ class LinSpec:
         if np.any((np.abs(alpha) < 1e-10) & (np.abs(beta) < 1e-10)):
             return dict(kind="singular")
         mod = np.where(np.abs(beta) < 1e-12 * np.maximum(1.0, np.abs(alpha)), np.inf, np.abs(alpha) / np.maximum(np.abs(beta), 1e-300))
-        if np.any(np.abs(mod - 1.0) < band):
+        unit = np.abs(mod - 1.0) < 1e-8          # exact unit roots belong to the "stable or unit" side
+        if np.any((np.abs(mod - 1.0) < band) & ~unit):
             return dict(kind="boundary", moduli=sorted(mod.tolist()))
-        nu = int(np.sum(mod > 1.0))
-        stable = mod[mod < 1.0]
-        unstable = mod[mod > 1.0]
+        nu = int(np.sum((mod > 1.0) & ~unit))
+        stable = mod[(mod < 1.0) & ~unit]
+        unstable = mod[(mod > 1.0) & ~unit]
         kind = "determinate" if nu == nf else ("indeterminate" if nu < nf else "no_stable")
-        return dict(kind=kind, num_unstable=nu, num_forward=nf, rho_max=float(stable.max()) if stable.size else 0.0,
+        return dict(kind=kind, num_unstable=nu, num_forward=nf, num_unit=int(unit.sum()),
+                    rho_max=float(stable.max()) if stable.size else 0.0,
                     lam_min=float(unstable.min()) if unstable.size else np.inf, moduli=sorted(mod.tolist()))
 
     # ---- residual operator ------------------------------------------------------------------------------
@@ -222,10 +224,15 @@ REGIMES = {
 def make_spec(n, lags, leads, cross_shift, regime, scale=1.0, const=True, meas="none", log=False):
     """lags[i], leads[i] in {0,1,2}; equation i additionally reads variable (i+1) % n at `cross_shift`
     (for n == 1 no cross term).  Coefficients of shift +-2 are 0.4 of the weight with opposite sign pattern."""
-    a, b, c = REGIMES[regime]
+    unitroot = regime == "unitroot"
+    a, b, c = REGIMES["saddle" if unitroot else regime]
     a, b, c = a * scale, b * scale, c * scale
     eqs = []
     for i in range(n):
+        if unitroot and i == 0:
+            # variable 0 is a pure random walk (no constant: flat steady state), the others load on it
+            eqs.append(dict(terms=[(0, -1, 1.0)], const=0.0, shock=True))
+            continue
         terms = []
         w = 1.0 - 0.07 * i                      # make equations differ
         if lags[i] == 1:
@@ -281,6 +288,15 @@ def family(tier, seed=0):
         for L, F in (((2, 1, 0), (1, 2, 0)), ((2, 2, 2), (1, 1, 1)), ((1, 1, 1), (2, 2, 2))):
             for xs in (-1, 0, 1):
                 add(3, L, F, xs, meas="two")
+    # unit-root models: variable 0 is a random walk
+    regs_save, regs[:] = list(regs), ["unitroot"]
+    add(1, (1,), (0,), 0, meas="one")
+    for L1, F1 in itertools.product((0, 1, 2) if tier != "quick" else (0, 1), repeat=2):
+        for xs in (-1, 0):
+            add(2, (1, L1), (0, F1), xs, meas=("one", "two")[(L1 + F1) % 2])
+    add(3, (1, 1, 1), (0, 1, 1), -1, meas="one")
+    add(3, (1, 0, 2), (0, 1, 0), 0, meas="two")
+    regs[:] = regs_save
     # log-variable (multiplicative) versions of the n <= 2 models with lags/leads <= 1 and a no-constant variant
     for L0, F0 in itertools.product((0, 1), repeat=2):
         add(1, (L0,), (F0,), 0, meas="one", log=True)
